@@ -100,7 +100,7 @@ func (e *Env) Close() {
 
 func (e *Env) MintByURL(u string) *world.World {
 	for _, m := range e.Mints {
-		if URL(m) == strings.TrimRight(u, "/") {
+		if strings.EqualFold(URL(m), strings.TrimRight(u, "/.")) {
 			return m
 		}
 	}
@@ -116,7 +116,7 @@ func (e *Env) RoundTrip(req *http.Request) (*http.Response, error) {
 	}
 	var m *world.World
 	for _, x := range e.Mints {
-		if x.LN.Name == req.URL.Host {
+		if strings.EqualFold(x.LN.Name, strings.TrimSuffix(req.URL.Host, ".")) { // host names: case-insensitive, a trailing dot is the same name
 			m = x
 		}
 	}
@@ -204,13 +204,16 @@ func (e *Env) Adopt(name, dir, defaultMint string) (*WalletH, error) {
 }
 
 // Restart shuts the wallet down and loads it again from its directory.
-func (e *Env) Restart(h *WalletH) error {
+func (e *Env) Restart(h *WalletH) error { return e.RestartAs(h, h.Default) }
+
+// RestartAs loads the wallet again with its default mint written as currentMint (another spelling of the same URL).
+func (e *Env) RestartAs(h *WalletH, currentMint string) error {
 	e.Cur = h.Name
 	if h.W != nil {
 		h.W.Shutdown()
 		h.W = nil
 	}
-	w, err := wallet.LoadWallet(wallet.Config{WalletPath: h.Dir, CurrentMintURL: h.Default})
+	w, err := wallet.LoadWallet(wallet.Config{WalletPath: h.Dir, CurrentMintURL: currentMint})
 	if err != nil {
 		return err
 	}
